@@ -5,62 +5,37 @@ from . import pse
 from .pse import SymInt, SymBool, truth
 
 
-class SymChar:
-    def __init__(self, idx, charset):
-        self.idx, self.charset = idx, charset  # SymInt digit value, invariant 0 <= idx < len(charset)
-
-    def __add__(self, o):
-        return SymSeq([self]) + o
-
-    def __radd__(self, o):
-        return SymSeq(list(o) + [self])
-
-    def __eq__(self, o):
-        if isinstance(o, SymChar):
-            return self.idx == o.idx
-        if isinstance(o, str) and len(o) == 1:
-            return self.idx == self.charset.s.index(o) if o in self.charset.s else False
-        return False
-
-    __hash__ = None
+PUA = 0xE000
+_CHARS = []  # per path: k -> SymInt digit value of the symbolic character chr(PUA + k)
 
 
-class SymSeq:
-    def __init__(self, items):
-        self.items = list(items)
+def reset():
+    del _CHARS[:]
 
-    def __add__(self, o):
-        if isinstance(o, str):
-            return SymSeq(self.items + list(o))
-        if isinstance(o, SymChar):
-            return SymSeq(self.items + [o])
-        return SymSeq(self.items + o.items)
 
-    def __radd__(self, o):
-        return SymSeq(list(o) + self.items)
+def new_char(idx):
+    """a symbolic character is a real one-character `str` from the Unicode private-use area, so that every string
+    operation of the code under test (concatenation, join, rjust, slicing, indexing, len) works natively on it"""
+    _CHARS.append(idx)
+    if len(_CHARS) > 6000:
+        raise pse.BoundExceeded("more than 6000 symbolic characters")
+    return chr(PUA + len(_CHARS) - 1)
 
-    def rjust(self, n, fill=" "):
-        return SymSeq([fill] * max(0, n - len(self.items)) + self.items)
 
-    def ljust(self, n, fill=" "):
-        return SymSeq(self.items + [fill] * max(0, n - len(self.items)))
+def char_value(ch):
+    """SymInt digit of a symbolic character, or None for an ordinary character"""
+    if isinstance(ch, str) and len(ch) == 1 and PUA <= ord(ch) < PUA + len(_CHARS):
+        return _CHARS[ord(ch) - PUA]
+    return None
 
-    def zfill(self, n):
-        return self.rjust(n, "0")
 
-    def __getitem__(self, i):
-        if isinstance(i, slice):
-            return SymSeq(self.items[i])
-        return self.items[i]
-
-    def __len__(self):
-        return len(self.items)
-
-    def __iter__(self):
-        return iter(self.items)
+def has_symbolic(s):
+    return any(PUA <= ord(c) < PUA + len(_CHARS) for c in s)
 
 
 class SymCharset:
+    """stands in for the alphabet constant: indexing with a symbolic digit yields a symbolic character"""
+
     def __init__(self, s):
         self.s = s
 
@@ -68,27 +43,35 @@ class SymCharset:
         if isinstance(i, SymInt):
             if not truth(SymBool(z3.And(i.z >= 0, i.z < len(self.s)))):
                 raise IndexError("string index out of range")
-            return SymChar(i, self)
+            return new_char(i)
         return self.s[i]
 
-    def index(self, ch):
-        if isinstance(ch, SymChar):
-            return ch.idx
-        return self.s.index(ch)
+    def index(self, ch, *a):
+        v = char_value(ch)
+        if v is not None:
+            return v
+        return self.s.index(ch, *a)
 
-    def find(self, ch):
-        if isinstance(ch, SymChar):
-            return ch.idx
-        return self.s.find(ch)
+    def find(self, ch, *a):
+        v = char_value(ch)
+        if v is not None:
+            return v
+        return self.s.find(ch, *a)
 
     def __len__(self):
         return len(self.s)
 
+    def __iter__(self):
+        return iter(self.s)
+
     def __contains__(self, ch):
-        return isinstance(ch, SymChar) or ch in self.s
+        return char_value(ch) is not None or ch in self.s
 
     def __eq__(self, o):
         return self.s == (o.s if isinstance(o, SymCharset) else o)
+
+    def __str__(self):
+        return self.s
 
     __hash__ = None
 
